@@ -550,7 +550,34 @@ theorem loopAttrs_no_panic (idx : Nat) (len : Option Nat) (depth : Nat) (hi : id
         rw [if_pos (by omega)]
         simp
 
+/-- inside the body (`idx < len`) plain subtraction would do … -/
+theorem revindex0_plain_in_body (idx len : Nat) (h : idx < len) : Legacy.revindex0Plain idx len = .ok (len - idx - 1) := by
+  unfold Legacy.revindex0Plain usub
+  rw [if_pos (by omega)]
+  simp only [ok_bind]
+  rw [if_pos (by omega)]
+
+/-- … but the exhausted loop object (`idx = len`, reachable through `{% set ns.l = loop %}` and a read
+    after the loop) makes it underflow: the saturating form is required by `loopAttrs_no_panic` -/
+theorem revindex0_plain_underflows : Legacy.revindex0Plain 2 2 = .panic := by decide
+
+/-- the exhausted loop object: `revindex = revindex0 = 0`, `index = len + 1`, not `last` -/
+theorem loopAttrs_exhausted (len depth : Nat) (h0 : len ≠ 0) (hl : len + 1 < 18446744073709551615) (hd : depth + 1 < 18446744073709551616) :
+    ∃ a, loopAttrsK len (some len) depth = .ok (some a) ∧ a.revindex = some 0 ∧ a.revindex0 = some 0 ∧
+      a.index = len + 1 ∧ a.last = false := by
+  unfold loopAttrsK
+  simp only [show ¬ len = 18446744073709551615 by omega, if_false, u64Add]
+  rw [if_pos (by omega)]
+  simp only [ok_bind, usizeN]
+  rw [if_pos hd]
+  simp only [h0, if_false, usub]
+  rw [if_pos (by omega)]
+  simp [usat]
+  omega
+
 example : loopAttrsK 2 (some 3) 0 = .ok (some ⟨2, 3, some 3, some 1, some 0, false, true, 1, 0⟩) := by decide
+example : loopAttrsK 3 (some 3) 0 = .ok (some ⟨3, 4, some 3, some 0, some 0, false, false, 1, 0⟩) := by decide
+example : loopAttrsK 7 (some 3) 0 = .ok (some ⟨7, 8, some 3, some 0, some 0, false, false, 1, 0⟩) := by decide
 example : loopAttrsK 0 none 0 = .ok (some ⟨0, 1, none, none, none, true, false, 1, 0⟩) := by decide
 example : loopAttrsK 18446744073709551615 (some 0) 0 = .ok none := by decide
 
